@@ -27,10 +27,14 @@ type Env struct {
 	oldEnv *Env   // variable bindings for old(...), if different
 	pkg    *types.Package
 	lookup func(name string) (EV, bool)
+	// rangeKey: the ghost set of keys visited by the map range of the loop the clause belongs to
+	rangeKey string
+	// curParams: a parameter name means its current value (loop clauses), not the value at entry
+	curParams bool
 }
 
 func (e *Env) clone() *Env {
-	n := &Env{f: e.f, vars: map[string]EV{}, st: e.st, old: e.old, oldEnv: e.oldEnv, pkg: e.pkg, lookup: e.lookup}
+	n := &Env{f: e.f, vars: map[string]EV{}, st: e.st, old: e.old, oldEnv: e.oldEnv, pkg: e.pkg, lookup: e.lookup, rangeKey: e.rangeKey, curParams: e.curParams}
 	for k, v := range e.vars {
 		n.vars[k] = v
 	}
@@ -145,6 +149,7 @@ func (e *Env) expr(x ast.Expr, hint string) (Term, types.Type) {
 				panic("unknown ghost variable " + n.Sel.Name)
 			}
 			key := "X:ghost." + n.Sel.Name
+			f.vc.ensureSortsIn(srt)
 			f.vc.compSrt[key] = normSort(srt)
 			return e.st.get(key), nil
 		}
@@ -261,6 +266,17 @@ func (e *Env) ident(name string, hint string) (Term, types.Type) {
 	if ev, ok := e.vars[name]; ok {
 		if lf, isLet := ev.V.(letFn); isLet {
 			return lf(e)
+		}
+		// a parameter that the body assigns to: its current value (old(...) has no lookup
+		// and keeps meaning the value at entry)
+		if e.lookup != nil && f.fn != nil && e.curParams {
+			for _, p := range f.fn.Params {
+				if p.Name() == name && len(f.names[name]) > 0 {
+					if lv, ok := e.lookup(name); ok {
+						return e.evTerm(lv), lv.T
+					}
+				}
+			}
 		}
 		return e.evTerm(ev), ev.T
 	}
@@ -615,7 +631,13 @@ func (e *Env) callExpr(n *ast.CallExpr, hint string) (Term, types.Type) {
 			return T(normSort(sf.Ret), "(%s %s)", name, strings.Join(parts, " ")), nil
 		}
 		if id, ok := sel.X.(*ast.Ident); ok && id.Name == "pure" {
-			return e.pureCall(sel.Sel.Name, n.Args)
+			return e.pureCall(shortPkg(e.pkg.Path()), sel.Sel.Name, n.Args)
+		}
+		// pure.pkg.Func(args): a pure function of another repo package
+		if inner, ok := sel.X.(*ast.SelectorExpr); ok {
+			if id, ok := inner.X.(*ast.Ident); ok && id.Name == "pure" {
+				return e.pureCall(inner.Sel.Name, sel.Sel.Name, n.Args)
+			}
 		}
 	}
 	id, ok := n.Fun.(*ast.Ident)
@@ -653,6 +675,51 @@ func (e *Env) callExpr(n *ast.CallExpr, hint string) (Term, types.Type) {
 		a, _ := e.expr(n.Args[0], sBool)
 		b, _ := e.expr(n.Args[1], sBool)
 		return tImp(a, b), nil
+	case "visited":
+		// visited(k): the map range of this loop has already yielded key k
+		if e.rangeKey == "" {
+			panic("visited: the clause does not belong to a loop that ranges over a map")
+		}
+		seen := e.st.get(e.rangeKey)
+		ks, _, _ := arraySorts(seen.Sort)
+		k, _ := e.expr(n.Args[0], ks)
+		return T(sBool, "(select %s %s)", seen.S, k.S), nil
+	case "docs":
+		// docs(): the content of every document in the heap (the component behind *Doc)
+		dk := "D:Seq_S_primitive_E"
+		f.vc.compSrt[dk] = "(Array Int Seq_S_primitive_E)"
+		return e.st.get(dk), nil
+	case "apply":
+		// apply(fn, args...): the result of calling the pure function-typed parameter fn
+		id0, ok := n.Args[0].(*ast.Ident)
+		if !ok {
+			panic("apply: first argument must be a function-typed parameter")
+		}
+		ft, fty := e.ident(id0.Name, sFn)
+		sig, ok := fty.Underlying().(*types.Signature)
+		if !ok {
+			panic("apply: " + id0.Name + " is not a function")
+		}
+		var vals []Value
+		for i, a := range n.Args[1:] {
+			h := ""
+			if i < sig.Params().Len() {
+				h = f.vc.sorts.sortOf(sig.Params().At(i).Type())
+			}
+			t, _ := e.expr(a, h)
+			vals = append(vals, t)
+		}
+		var resT types.Type = sig.Results()
+		if sig.Results().Len() == 1 {
+			resT = sig.Results().At(0).Type()
+		}
+		switch r := f.pureParamCall(id0.Name, ft, vals, resT).(type) {
+		case Term:
+			return r, sig.Results().At(0).Type()
+		case Tuple:
+			return r[0].(Term), sig.Results().At(0).Type()
+		}
+		panic("apply: no result")
 	case "upd":
 		// upd(a, k, v): the ghost map a with key k set to v
 		a, _ := e.expr(n.Args[0], "")
@@ -765,6 +832,15 @@ func (e *Env) callExpr(n *ast.CallExpr, hint string) (Term, types.Type) {
 	case "alloc":
 		t, _ := e.expr(n.Args[0], sRef)
 		return T(sInt, "(alloc %s)", t.S), nil
+	case "mkstruct":
+		// mkstruct(S_pkg_Type, field values in declaration order): a struct value
+		srt := exprText(n.Args[0])
+		var parts []string
+		for _, a := range n.Args[1:] {
+			t, _ := e.expr(a, "")
+			parts = append(parts, t.S)
+		}
+		return T(srt, "(mk.%s %s)", srt, strings.Join(parts, " ")), nil
 	case "is":
 		t, _ := e.expr(n.Args[0], sVal)
 		return T(sBool, "((_ is %s) %s)", n.Args[1].(*ast.Ident).Name, t.S), nil
@@ -871,9 +947,8 @@ func (e *Env) preludeFn(name string, args []ast.Expr) Term {
 }
 
 // pureCall: pure.Func(args) stands for the result of a pure repo function.
-func (e *Env) pureCall(name string, args []ast.Expr) (Term, types.Type) {
+func (e *Env) pureCall(pk, name string, args []ast.Expr) (Term, types.Type) {
 	f := e.f
-	pk := shortPkg(e.pkg.Path())
 	key := pk + "." + name
 	fn := f.vc.w.fnIndex[key]
 	if fn == nil {
@@ -889,7 +964,7 @@ func (e *Env) pureCall(name string, args []ast.Expr) (Term, types.Type) {
 		vals = append(vals, t)
 	}
 	rt := fn.Signature.Results().At(0).Type()
-	return f.pureResult(key, 0, vals, rt), rt
+	return f.pureResult(key, 0, vals, rt, e.st), rt
 }
 
 // ---------------------------------------------------------------------------
@@ -901,6 +976,7 @@ type modTarget struct {
 	key   string
 	ref   Term
 	since *Term // every object allocated at or after this stamp
+	guard *Term // the target is empty unless this holds (elems of a slice without capacity)
 }
 
 // modTargets resolves one modifies entry into frame targets (mapof yields two).
@@ -974,6 +1050,7 @@ func (e *Env) modTarget(m string) (mt modTarget, err error) {
 				return mt, fmt.Errorf("unknown ghost variable %s", sel.Sel.Name)
 			}
 			key := "X:ghost." + sel.Sel.Name
+			f.vc.ensureSortsIn(srt)
 			f.vc.compSrt[key] = normSort(srt)
 			return modTarget{whole: true, key: key}, nil
 		}
@@ -1010,7 +1087,8 @@ func (e *Env) modTarget(m string) (mt modTarget, err error) {
 			}
 			es := f.vc.sorts.sortOf(st.Underlying().(*types.Slice).Elem())
 			key := f.compKey("E:", sortTag(es), es)
-			return modTarget{key: key, ref: T(sInt, "(Sl.base %s)", s.S)}, nil
+			g := T(sBool, "(> (Sl.cap %s) 0)", s.S)
+			return modTarget{key: key, ref: T(sInt, "(Sl.base %s)", s.S), guard: &g}, nil
 		}
 		if id != nil && id.Name == "comp" {
 			// comp(Type.field): the whole field of every object
